@@ -3,7 +3,7 @@ from .common import unhx
 
 
 class Res:
-    __slots__ = ("cls", "perr", "tree", "ctext", "cerr", "s2t", "t2s", "gtext", "gerr", "raw")
+    __slots__ = ("cls", "perr", "tree", "ctext", "cerr", "s2t", "t2s", "gtext", "gerr", "raw", "adds")
 
 
 def _table(s):
@@ -43,6 +43,11 @@ def parse_model(line):
         r.s2t[(sl, sc)] = (tl, tc)
         r.t2s[(tl, tc)] = (sl, sc)
     r.gtext, r.gerr = f[6], f[7]
+    r.adds = []
+    if len(f) > 8 and f[8]:
+        for a in f[8].split(";"):
+            p = a.split(",")
+            r.adds.append((unhx(p[0]), int(p[1]), int(p[2]), int(p[3]), int(p[4])))
     return r
 
 
